@@ -173,6 +173,16 @@ func sceneQuery(o ReqOpts) {
 		bz, lerr = lq(types.QueryResponses, types.QueryResponsesParams{RequestContextID: id, BatchCounter: bc})
 		var lp []types.Response
 		chk("C17", vf.All(lerr == nil, vf.FromAminoJSON(bz, &lp) == nil, len(lp) == nresp), "legacy-responses-of-batch-same")
+		if err == nil && rr != nil && len(rr.Responses) == nresp && len(lp) == nresp {
+			for j := 0; j < nresp; j++ {
+				chk("C17", sameResponse(lp[j], *rr.Responses[j]), "legacy-response-of-batch-same-record")
+			}
+		}
+		if err == nil && r != nil && len(r.Requests) == s.M && len(lr) == s.M {
+			for j := 0; j < s.M; j++ {
+				chk("C17", sameRequest(lr[j], *r.Requests[j]), "legacy-request-of-batch-same-record")
+			}
+		}
 	case 8: // single response
 		vf.Assume(s.M >= 1)
 		r, err := k.Response(gctx, &types.QueryResponseRequest{RequestId: s.ReqIDs[0]})
